@@ -279,6 +279,11 @@ def sequence_stream(chk, model, bres, R, n, stream='dimension-sequences'):
             item.zones.value = zones
         if dim0 is not None:
             item.dimension.value = dim0
+        # an axis (with 2, 3 or no coordinates) held throughout: it is checked against the dimension the USER assigned,
+        # never against one derived at an earlier check
+        axes = [mk_axis(R.choice([None, 2, 3]))] if R.random() < 0.4 else None
+        if axes is not None:
+            item.axis.value = axes
         toks = ['dflt', 'seq', dim_tok(dim0)]
         impl, steps_desc, fresh_ok = [], [], True
         user_dim = dim0
@@ -298,12 +303,14 @@ def sequence_stream(chk, model, bres, R, n, stream='dimension-sequences'):
                 vt = []
                 for h in held:
                     vt += req_tokens(h)
-                toks += ['M', asg, str(len(names))] + vt + ['~']
+                toks += ['M', asg, str(len(names))] + vt + [axes_tok(axes)]
                 steps_desc.append({'assign_dimension': None if asg == '=' else user_dim, 'values': vals})
                 # fresh item: the user's latest assignment and the current values
                 f = T.CalibrationMeasurementItem('C', parent=T.CalibrationMeasurementSet(), origin_reference=1)
                 if user_dim is not None:
                     f.dimension.value = user_dim
+                if axes is not None:
+                    f.axis.value = axes
                 for nm, v in zip(names, vals):
                     getattr(f, nm).value = v
             else:
@@ -311,13 +318,15 @@ def sequence_stream(chk, model, bres, R, n, stream='dimension-sequences'):
                 item.values.value = v
                 held = item.values.value
                 st, err = call(item._run_checks_and_set_defaults)
-                toks += ['P', asg, '1' if kind == 'param' else '0'] + req_tokens(held) + [str(nz), '~']
+                toks += ['P', asg, '1' if kind == 'param' else '0'] + req_tokens(held) + [str(nz), axes_tok(axes)]
                 steps_desc.append({'assign_dimension': None if asg == '=' else user_dim, 'values': v})
                 cls = (T.ParameterSet if kind == 'param' else T.ComputationSet)
                 f = cls.item_type('P', parent=cls(), origin_reference=1)
                 f.zones.value = zones
                 if user_dim is not None:
                     f.dimension.value = user_dim
+                if axes is not None:
+                    f.axis.value = axes
                 f.values.value = v
             stf, errf = call(f._run_checks_and_set_defaults)
             impl.append(('ok ' if st == 'ok' else f'err:{err} ') + dim_tok(item.dimension.value))
@@ -325,14 +334,14 @@ def sequence_stream(chk, model, bres, R, n, stream='dimension-sequences'):
                     (st == 'ok' and item.dimension.value != f.dimension.value):
                 fresh_ok = False
                 chk.fail(f'{stream}:differs-from-fresh-item',
-                         {'object': kind, 'zones': nz, 'dimension_assigned_at_creation': dim0, 'steps': steps_desc},
+                         {'object': kind, 'zones': nz, 'dimension_assigned_at_creation': dim0, 'axis_coordinates': axes_tok(axes), 'steps': steps_desc},
                          f'step {k + 1}: {st} {err if st != "ok" else ""} dimension {item.dimension.value}; a fresh item with the '
                          f'same assignment and values: {stf} {errf if stf != "ok" else ""} dimension {f.dimension.value}')
                 break
         if not fresh_ok:
             continue
         reqs.append(' '.join(toks))
-        metas.append(({'object': kind, 'zones': nz, 'dimension_assigned_at_creation': dim0, 'steps': steps_desc}, ';'.join(impl)))
+        metas.append(({'object': kind, 'zones': nz, 'dimension_assigned_at_creation': dim0, 'axis_coordinates': axes_tok(axes), 'steps': steps_desc}, ';'.join(impl)))
     for (case, impl), req, rep in zip(metas, reqs, model.ask(reqs)):
         chk.case(stream, nontrivial_key=hash(req), sample={'request': req[:200], 'impl': impl})
         chk.count(f"{stream}:{case['object']}:{'refusals' if 'err' in impl else 'all-ok'}")
